@@ -37,8 +37,16 @@ impl<T: UciTx, H: Heuristic, M: MoveOrder> Search<T, H, M> {
     }
 
     pub fn idle(&mut self) {
+        #[cfg(inkayaku_verif)]
+        if let Some(capacity) = crate::engine::verif::tt_capacity_override() {
+            self.state.transposition_table = HashMapTranspositionTable::new(capacity);
+        }
         while !self.flags.quit_as_soon_as_possible {
+            #[cfg(inkayaku_verif)]
+            crate::engine::verif::idle_enter(&self.state.bitboard);
             if let Ok(message) = self.search_rx.recv() {
+                #[cfg(inkayaku_verif)]
+                crate::engine::verif::idle_exit();
                 match message {
                     UciUciNewGame => {
                         self.flags.reset_for_next_search = true;
@@ -147,6 +155,8 @@ impl<T: UciTx, H: Heuristic, M: MoveOrder> Search<T, H, M> {
 
         self.state.is_running = true;
         self.state.started_at = SystemTime::now();
+        #[cfg(inkayaku_verif)]
+        { self.state.started_at = crate::engine::verif::now(self.state.metrics.last.negamax_nodes); }
 
         let (best_move, ponder_move) = self.best_move();
         self.uci_tx.best_move(best_move, ponder_move);
@@ -221,6 +231,8 @@ impl<T: UciTx, H: Heuristic, M: MoveOrder> Search<T, H, M> {
         self.state.killer_table.age(2);
 
         self.state.started_at = SystemTime::now();
+        #[cfg(inkayaku_verif)]
+        { self.state.started_at = crate::engine::verif::now(self.state.metrics.last.negamax_nodes); }
 
         let mut best_move = None;
 
@@ -291,6 +303,11 @@ impl<T: UciTx, H: Heuristic, M: MoveOrder> Search<T, H, M> {
 
     #[inline(always)]
     fn should_check_flags(&mut self) -> bool {
+        #[cfg(inkayaku_verif)]
+        if true {
+            let nodes = self.state.metrics.last.negamax_nodes;
+            return nodes % crate::engine::verif::poll_interval() == 0 && nodes > 0;
+        }
         self.state.metrics.last.negamax_nodes % 100_000 == 0 && self.state.metrics.last.negamax_nodes > 0
     }
 
@@ -311,6 +328,8 @@ impl<T: UciTx, H: Heuristic, M: MoveOrder> Search<T, H, M> {
 
         let check_flags = self.should_check_flags();
         if check_flags {
+            #[cfg(inkayaku_verif)]
+            crate::engine::verif::on_poll(self.state.metrics.last.negamax_nodes, ply_depth_from_root, max_ply);
             self.check_messages();
             self.uci_tx.info(&Info {
                 time: Some(self.state.elapsed()),
@@ -640,6 +659,10 @@ impl SearchState {
     }
 
     fn elapsed(&self) -> Duration {
+        #[cfg(inkayaku_verif)]
+        if true {
+            return crate::engine::verif::now(self.metrics.last.negamax_nodes).duration_since(self.started_at).unwrap_or(Duration::ZERO);
+        }
         self.started_at.elapsed().unwrap_or(Duration::ZERO)
     }
 }
